@@ -10,21 +10,31 @@ ENTRY = dict(
                 "exhaustive runs of the real gateways (1..4 conditional branches x default absent / at every position x all "
                 "truth assignments x finishing orders x a branch ending early) and seeded nested programs, in lock-step with "
                 "the engine model; the specification accepts a release anywhere in the window the property allows "
-                "(earliest: reachability; latest: lineage of the fork activation)."),
+                "(earliest: reachability; latest: lineage of the fork activation). TRACKER LEVEL (Props/C05Tracker): a port "
+                "of the flow tracker's map (handleTrace, activeFlowsInCohort, reachedNode) and of the join decision taken "
+                "on a PREFIX of the trace order; proved for a fork activation of any size and any arrival order that the "
+                "join releases exactly once, with all tokens, at the last arrival and nothing before, whenever the tracker "
+                "has processed the fork's FlowTrace (which its start-up lock guarantees for the first activation: "
+                "first_activation_view); kernel-checked witness that a join re-entered in a loop reading the map one "
+                "FlowTrace too early fires for the first token alone and again for the second (D33, the history recorded on "
+                "the engine; known finding inclusive_join_stale_tracker); the map port is tied to the code by a seeded "
+                "function differential of the real tracker (family c05trk)."),
     level_note=("partial: join theorems are for flat blocks under the counting abstraction; nested forks / inclusive blocks "
                 "inside parallel or inclusive branches are the known finding inclusive_cohort (D19), re-observed on every run; "
-                "the tracker is modelled as an up-to-date view at quiescence, the lock protocol between tracker and gateway "
-                "is exercised by the runs (perturbation at tracker.before_unlock / inclusive.activity in thorough), not proved"),
+                "in the ENGINE model the tracker is an up-to-date view at quiescence; the tracker-level model makes the view "
+                "explicit, but which views the Go scheduler can produce after the first activation is not constrained by any "
+                "lock (that is the defect D33), so the join theorem is conditional on a fresh view there; arrivals while a "
+                "probing round is in progress are not modelled"),
     technique="Lean 4 proof (fork kernel, join window theorem, kernel-checked witness) + exhaustive lock-step replay",
-    lean_modules=["Bpmn.Props.C05", "Bpmn.Props.EngineCurrent"],
-    families=["c05", "c05d", "c05n"],
+    lean_modules=["Bpmn.Props.C05", "Bpmn.Props.C05Tracker", "Bpmn.Props.EngineCurrent"],
+    families=["c05", "c05d", "c05n", "c05trk"],
     harness_files=["c03.go"],
     exhaustive=True,
     facts_from=["Engine"],
     rule=("c05: start -> A -> inclusive fork (c conditions `b_i == 1`, optional default at list position d) -> one task per "
           "branch -> inclusive join -> Z; all c in 1..4, d in {none,0..c}, all 2^c truth assignments, branch `early` ending at "
           "its own end event (quick: none / branch 0; thorough: every branch), finishing orders = permutations of the "
-          "activated branches (quick: a third when more than two); c05d: 2..4 activated branches running straight from the fork to the join (no activity), optionally one branch with a task, repeated with and without schedule perturbation (the join's first arrival races the tracker); c05n: seeded programs nesting inclusive, parallel and "
+          "activated branches (quick: a third when more than two); c05d: 2..4 activated branches running straight from the fork to the join (no activity), optionally one branch with a task, repeated with and without schedule perturbation (the join's first arrival races the tracker); c05trk: 1500 (thorough 40000) seeded sequences of 1..8 FlowTraces / TerminationTraces over 4 tokens and 4 nodes fed to the real flowTracker.handleTrace, cohort of every token and reachedNode compared with the Lean port after every event; c05n: seeded programs nesting inclusive, parallel and "
           "exclusive blocks; non-trivial = judged run; distinct by parameters/program and history"),
     trusted_base=TB_COMMON + ["whole-process quiescence detection via runtime.Stack goroutine states"],
     assumptions=["driver actions are issued at quiescence, so the flow tracker's picture is current when the gateway consults it"],
